@@ -25,6 +25,7 @@ type ModSet struct {
 	All     bool
 	Reads   bool // may read from an underlying io.Reader (moves the ghost tape cursor)
 	Writes  bool // may write to an underlying io.Writer (moves the ghost output cursor)
+	Locks   bool // may lock or unlock a mutex (changes the ghost flag held())
 }
 
 func newModSet() *ModSet {
@@ -55,6 +56,10 @@ func (m *ModSet) union(o *ModSet) bool {
 	}
 	if (o.Writes || o.All) && !m.Writes {
 		m.Writes = true
+		ch = true
+	}
+	if o.Locks && !m.Locks {
+		m.Locks = true
 		ch = true
 	}
 	for _, d := range o.Descs {
@@ -287,6 +292,9 @@ func (p *Program) callMods(cc *ssa.CallCommon, ms *ModSet) {
 		ms.add(descAlloc)
 		ms.Reads = true
 		return
+	}
+	if strings.HasPrefix(key, "(*sync.Mutex).") || strings.HasPrefix(key, "(*sync.RWMutex).") {
+		ms.Locks = true
 	}
 	if _, ok := intrinsics[key]; ok {
 		ms.add(descAlloc)
